@@ -31,11 +31,13 @@ UseSites == {"el.read", "el.write", "el.writev", "c.write", "c.writev", "c.openw
 Owner(h) == <<"c", h>>
 
 \* a new descriptor number fd for owner o: if the ledger still has the number, its old owner is closing it
-Create(fd, o, what) ==
-    LET v1 == Check(fd \notin DOMAIN dying /\ fd \notin foreign, "FreshDescriptorIsUnowned", <<what, fd>>, viols) IN
+CreateV(fd, o, what, vs) ==
+    LET v1 == Check(fd \notin DOMAIN dying /\ fd \notin foreign, "FreshDescriptorIsUnowned", <<what, fd>>, vs) IN
     IF fd \in DOMAIN own
     THEN Step(Put(own, fd, o), Put(dying, fd, own[fd]), foreign, dups, v1)
     ELSE Step(Put(own, fd, o), dying, foreign, dups, v1)
+
+Create(fd, o, what) == CreateV(fd, o, what, viols)
 
 \* owner o closes fd: either the entry it owns, or the one it was about to close when the number was reused
 Close(fd, o, what) ==
@@ -50,7 +52,12 @@ Step1 ==
     /\ LET e == Ev IN
        CASE e.ev = "Reset" -> Step(Empty, Empty, foreign, {}, viols)
          \* ---- creation
-         [] e.ev = "Sys" /\ e.site = "acc.accept" /\ e.err = "nil" -> Create(e.fd, <<"accepted", e.fd>>, "accept")
+         \* (accept4 is itself a use of the listener's number: it must be a listener the framework still owns -- a listener
+         \* closed while a loop can still be told about it is polled by number, whatever has that number by then)
+         [] e.ev = "Sys" /\ e.site = "acc.accept" ->
+              LET v1 == Check(e.n \in DOMAIN own /\ own[e.n] = <<"ln", e.n>>, "UseOnlyOwnedFd",
+                              <<"acc.accept", e.n, Get(own, e.n, "none"), Get(dying, e.n, "none")>>, viols)
+              IN IF e.err = "nil" THEN CreateV(e.fd, <<"accepted", e.fd>>, "accept", v1) ELSE Same(v1)
          [] e.ev = "Sys" /\ e.site \in {"el.dup", "cli.dup"} /\ e.err = "nil" -> Create(e.fd, <<"accepted", e.fd>>, "dup")
          [] e.ev = "Sys" /\ e.site = "ln.open" /\ e.err = "nil" -> Create(e.fd, <<"ln", e.fd>>, "listener")
          [] e.ev = "Sys" /\ e.site = "p.open" ->
